@@ -40,7 +40,10 @@ def r1(ctx):
     f = p.func(f"{SCHED}.notify_status")
     g = f.cfg
     notif = [n for n in g.nodes.values() if _is_call(n, LOCK, "notify_all")]
-    ctx.require(bool(notif), "C12.R1: notify_all() not found in notify_status")
+    if not notif:
+        ctx.ob("R1", "notify_status notifies the waiters", False, func=f, node=f.node, instance="notify:missing",
+               message="notify_status never calls self.wait_queue.notify_all(): requests waiting for capacity are never woken up")
+        return
     for n in notif:
         inlock = any(under_lock(c) is not None for c in n.calls())
         ctx.ob("R1", "notify_all is issued while holding the condition lock", inlock, func=f, node=n.ast, instance="notify:locked",
